@@ -62,6 +62,7 @@ Proof.
     + rewrite sp_defer_item_slot. apply Hd.
   - intros b [Hp Hd]. split; intros; [rewrite sp_prep_item_provide; apply Hp | rewrite sp_defer_item_provide; apply Hd].
   - intros b [Hp Hd]. split; intros; [rewrite sp_prep_item_drop; apply Hp | rewrite sp_defer_item_drop; apply cnt_zero].
+  - intros b [Hp Hd]. split; intros; [rewrite sp_prep_item_extract; apply Hp | rewrite sp_defer_item_extract; apply Hd].
   - intros isroot rootel up mask [name np body] [Hp Hd].
     assert (Hdef : forall path k, cnt (1 + pp_items false body + dp_items body + 1) k
                      (sp_deferred um path name (sp_prep_items um false body) (fun p => sp_defer_items um p body) k)).
@@ -131,6 +132,7 @@ Proof.
     + rewrite sp_defer_item_slot. apply Hd.
   - intros b [Hp Hd]. split; intros; [rewrite sp_prep_item_provide; apply Hp | rewrite sp_defer_item_provide; apply Hd].
   - intros b [Hp Hd]. split; intros; [rewrite sp_prep_item_drop; apply Hp | rewrite sp_defer_item_drop; exact I].
+  - intros b [Hp Hd]. split; intros; [rewrite sp_prep_item_extract; apply Hp | rewrite sp_defer_item_extract; apply Hd].
   - intros isroot rootel up mask [name np body] [Hp Hd].
     assert (Hdef : forall path k, gd (sp_deferred um path name (sp_prep_items um false body)
                                          (fun p => sp_defer_items um p body) k)).
